@@ -48,10 +48,16 @@ META = dict(
          "the later-listed ones', with controls: no fault, naive next to aware times, the group in a scripted removing source; 6 % have "
          "sources that write get_schedules / pre_send / post_send as plain def / async def / plain def returning a coroutine, Task, Future, "
          "done Future, __await__-only object, generator-based coroutine, gather, shield - methods of the class or bound on the instance "
-         "after the scheduler was built - every style in every check, with a one-shot that fires >= 4 min before the end); non-trivial iff it crosses >= 3 minute boundaries "
+         "after the scheduler was built - every style in every check, with a one-shot that fires >= 4 min before the end; 5 % run on a "
+         "host whose time zone is not UTC - POSIX strings and IANA names, east / west, 30 / 45 / 20 / 1 minute offsets, with and without "
+         "daylight saving, a fifth with the host's own offset change inside the run - installed with TZ + time.tzset() in the driver, the "
+         "controlled clock answering now() without tz with the host's wall clock, with naive and aware (UTC / fixed offset / host-local) "
+         "one-shots in the future, in the past and where a local reading would land in the run; 1 in 14 of the plain runs on such a host too; "
+         "neither the oracle nor the model sees the host zone); non-trivial iff it crosses >= 3 minute boundaries "
          "with a cron both due and not due, >= 1 one-shot, >= 1 injected failure; distinct by canonical JSON",
     trusted_base=["model: coq/theories/SchedLoop.v (hand-written transcription of taskiq/cli/scheduler/run.py loop + system model)",
-                  "exact virtual-time loop and datetime shim in harness/drivers/sched_driver.py (one clock for wall and monotonic time)",
+                  "exact virtual-time loop and datetime shim in harness/drivers/sched_driver.py (one clock for wall and monotonic time; "
+                  "now() without tz = the C library's local time of the installed host zone)",
                   "independent cron matcher in harness/props/C15.py for `*`, `*/n`, `a`, `a,b` minute/hour fields and `*`, `a`, `a,b` day / "
                   "month / weekday fields, on the wall clock of the schedule's cron_offset (CPython datetime; zones by stdlib zoneinfo "
                   "reading pytz's own bundled TZif files)",
@@ -719,7 +725,7 @@ def count_payload(rep, c, o):
             if p.get("extra"):
                 rep.count("payload:unknown-keys" + lab)
             if p.get("tz") is not None:
-                rep.count("payload:one-shot-time:aware-fixed-offset" + lab)
+                rep.count("payload:one-shot-time:" + ("aware-host-local" if p["tz"] == "host" else "aware-fixed-offset") + lab)
             if p.get("tcls"):
                 rep.count("payload:one-shot-time:datetime-subclass" + lab)
             if p.get("share") is not None:
@@ -951,6 +957,173 @@ def count_callbacks(rep, c, o):
             if done:
                 later = sum(1 for q in o["polls"] if q["snaps"][i] is not None and q["snaps"][i] > min(done))
                 rep.count("callbacks:one-shot-sent:post_send-%s:later-polls-%s" % (cb["post"], ">=3" if later >= 3 else "1-2" if later else "0") + lab)
+
+
+# ------------------------------------------------------------------ the time zone of the HOST the scheduler runs on
+NHOST = (30, 800)                         # runs on a host whose zone is not UTC: quick, thorough
+# POSIX TZ strings (no zone database needed; (string, standard offset, DST offset) in minutes east of UTC) and IANA names resolved
+# by the C library.  Whole-minute offsets only: the loop sleeps to the next minute of the host's wall clock, and the statement's
+# "minute boundary" is the same instant on every such host.  The offsets are used to AIM one-shot times only - neither the
+# oracle nor the model ever sees the host zone.
+HOSTS_POSIX = [("MSK-3", 180, 180), ("EST5EDT", -300, -240), ("EST5", -300, -300), ("IST-5:30", 330, 330),
+               ("NPT-5:45", 345, 345), ("NZST-12NZDT", 720, 780), ("<+14>-14", 840, 840), ("<-12>12", -720, -720),
+               ("NST3:30NDT", -210, -150), ("AEST-10AEDT,M10.1.0,M4.1.0/3", 600, 660), ("CET-1CEST", 60, 120),
+               ("GMT0BST", 0, 60), ("PST8PDT", -480, -420), ("<+0020>-0:20", 20, 20), ("<-0001>0:01", -1, -1), ("UTC0", 0, 0)]
+HOSTS_IANA = [z for z in TZ_ZONES if z != "UTC"] + ["America/Los_Angeles", "Australia/Adelaide", "Asia/Kabul", "Pacific/Honolulu"]
+
+
+def host_offsets(host, t_us):
+    """the UTC offsets (us) the host zone may show around t_us - used only to aim times"""
+    for h, a, b in HOSTS_POSIX:
+        if h == host:
+            return sorted({a * MIN, b * MIN})
+    z = {"kind": "zone", "zone": host.lstrip(":")}
+    return sorted({shift_us(t_us, z), shift_us(t_us + 200 * DAY * MIN, z)})
+
+
+def hostify(r, c, host, hostkind, aimed=True):
+    """The machine the scheduler process runs on, which every loop run so far held constant (TZ = UTC, the container): here the
+    run happens on a host in another zone - east / west of UTC, half-hour / 45 / 20 / 1 minute offsets, with and without
+    daylight saving, POSIX strings and IANA names, a part of them with the host's OWN offset change inside the run.  The
+    statement does not mention the host: a naive one-shot time is a UTC wall clock (taskiq's convention), an aware one an
+    instant, a cron without cron_offset is read on UTC, one with it on that offset's wall clock - so the case, the oracle and
+    the model are what they are without `host`; only the process environment of the driver differs (TZ + tzset, and the
+    controlled clock's now() without tz showing the host's wall clock).  A loop that reads anything in local time - a naive
+    one-shot time, `now` for a cron, the minute boundary - sends at instants shifted by the host's offset.  With `aimed`, a
+    removing / label source also gets, free of presence windows and kick faults: a naive one-shot in the future of the start
+    (east of UTC a local reading sends it at the first poll, early), a naive one already past (west of UTC a local reading
+    never sends it), a naive one whose LOCAL reading falls inside the run (its true instant mostly lies outside it), and aware
+    ones of the same kinds (UTC, fixed offsets, the host's own zone as CPython spells it).  Applied to a run of any family."""
+    c["host"], c["hostkind"] = host, hostkind
+    if not aimed:
+        return c
+    start, end = c["start"], c["end"]
+    m0, m1 = start // MIN, end // MIN
+    srcs = c["sources"]
+    cand = [i for i, s in enumerate(srcs) if s["kind"] != "static"]
+    if not cand:
+        i = r.randrange(len(srcs))
+        srcs[i]["kind"] = "removing"
+        cand = [i]
+    used_T = {e["T"] for s in srcs for e in s["entries"] if e["kind"] == "one"}
+    sid = [max(e["sid"] for s in srcs for e in s["entries"])]
+    offs = [x for x in host_offsets(host, start) if x] or [0]
+
+    def one(T, spell):
+        while T in used_T:
+            T += 1
+        used_T.add(T)
+        i = r.choice(cand)
+        sid[0] += 1
+        e = dict(sid=sid[0], add=None, **{"del": None}, kind="one", T=T, hostaim=spell)
+        if srcs[i]["kind"] == "label":
+            e["task"] = r.choice(["t0", "t1", "t2"])
+        if spell == "aware-utc":
+            e["naive"] = False
+        elif spell != "naive":
+            e["pay"] = gen_pay(r, srcs[i]["kind"], "one", carrier="args")
+            e["pay"].pop("tcls", None)
+            e["pay"]["tz"] = "host" if spell == "aware-host-local" else r.choice(XTZ)
+        elif r.random() < .15:
+            e["pay"] = gen_pay(r, srcs[i]["kind"], "one", carrier="args")
+            e["pay"].pop("tz", None)
+        srcs[i]["entries"].append(e)
+        c["kfail"] = [x for x in c["kfail"] if not (x[0] == i and x[1] == e["sid"])]
+        for n in range(8):
+            c["klat"]["%d:%d:%d" % (i, e["sid"], n)] = odd(r.randrange(0, 2 * US) if r.random() < .9 else r.randrange(0, 70 * US))
+        return e
+
+    def future():
+        mm = r.randrange(m0 + 1, max(m0 + 2, m1 - 1)) * MIN
+        return r.choice([mm, mm + 500_000, mm + US, mm - 1, mm + 1, mm + r.randrange(MIN), mm + r.randrange(MIN)])
+
+    def past():
+        return start - r.choice([1, 500_000, US, r.randrange(1, MIN), r.randrange(1, 5 * MIN), r.randrange(1, 5 * MIN)])
+
+    def local_reading():
+        # the instant whose local (mis)reading - shifted by the host's offset either way - is a moment of the run
+        return (future() if r.random() < .7 else past()) + r.choice(offs) * r.choice([1, 1, -1])
+
+    aware = ["aware-utc", "aware-fixed-offset", "aware-host-local", "aware-host-local"]
+    one(future(), "naive")
+    if r.random() < .7:
+        one(past(), "naive")
+    if r.random() < .4:
+        one(local_reading(), "naive")
+    if r.random() < .3:
+        one(future(), "naive")
+    for f, p in ((future, .6), (past, .3), (local_reading, .25)):
+        if r.random() < p:
+            one(f(), r.choice(aware))
+    if r.random() < .2:           # a naive and an aware one-shot of ONE instant, side by side
+        T = future()
+        a = one(T, "naive")
+        used_T.discard(a["T"])
+        one(a["T"], r.choice(aware))
+    for s in srcs:
+        if s["kind"] == "label":
+            s["entries"].sort(key=lambda e: (e["task"], e["add"] is not None, e["add"] or 0))
+        else:
+            s["entries"].sort(key=lambda e: (e["add"] is not None, e["add"] or 0))
+    c["family"] = "host-zone"
+    return c
+
+
+def pick_host(r):
+    if r.random() < .45:
+        return r.choice(HOSTS_POSIX[:-1])[0], "posix"
+    return (":" if r.random() < .1 else "") + r.choice(HOSTS_IANA), "iana"      # ":name" = glibc's explicit file form
+
+
+def gen_hosts(r, k):
+    """the k-th run of the host-zone family (k walks through the host zones so that every check has east, west, half-hour and
+    daylight-saving hosts); a fifth: an IANA host with daylight saving whose own offset changes inside the run"""
+    q = r.random()
+    if k % 5 == 4:
+        z = r.choice(TZ_DST)
+        T = r.choice(transitions(z, r.choice([2024, 2025, 2026, 2027, 2029])))
+        c = gen_case(r, long=r.random() < .1, base_at=T - r.randint(1, 4) * MIN)
+        return hostify(r, c, z, "iana-at-own-transition")
+    c = gen_payload(r) if q < .1 else gen_zones(r) if q < .3 else gen_case(r, long=q > .95)
+    hosts = [(h, "posix") for h, _, _ in HOSTS_POSIX[:-1]] + [(h, "iana") for h in HOSTS_IANA]
+    host, kind = hosts[(k * 7) % len(hosts)]
+    if kind == "iana" and r.random() < .1:
+        host = ":" + host
+    return hostify(r, c, host, kind)
+
+
+def count_host(rep, c, o):
+    """evidence distribution of the host zones and of the one-shots a local reading would move"""
+    h = o.get("host") or {}
+    rep.count("host-zone:runs")
+    rep.count("host-zone:kind:" + c.get("hostkind", "?"))
+    a, b = h.get("off_start_us"), h.get("off_end_us")
+    if a is None:
+        return
+    rep.count("host-zone:offset-at-start:" + ("east-of-UTC" if a > 0 else "west-of-UTC" if a < 0 else "zero"))
+    if a % (60 * MIN):
+        rep.count("host-zone:offset-at-start:not-whole-hours")
+    if a != b:
+        rep.count("host-zone:own-offset-change-inside-the-run")
+    if any(e["kind"] == "cron" and e.get("off") for s in c["sources"] for e in s["entries"]):
+        rep.count("host-zone:runs-with-cron_offset-schedules")
+    if any(e["kind"] == "cron" and not e.get("off") and any(ch.isdigit() for ch in e["cron"].split(" ")[1])
+           for s in c["sources"] for e in s["entries"]):
+        rep.count("host-zone:runs-with-hour-bound-cron-without-offset")
+    for i, s in enumerate(c["sources"]):
+        for e in s["entries"]:
+            if e["kind"] != "one":
+                continue
+            p = e.get("pay") or {}
+            spell = "aware-host-local" if p.get("tz") == "host" else "aware" if is_aware(e) else "naive"
+            rep.count("host-zone:one-shot:" + spell)
+            if a and e.get("hostaim"):
+                sent = any(k[0] == i and k[1] == e["sid"] for k in o["kicks"])
+                inside = c["start"] <= e["T"] < c["end"]
+                rep.count("host-zone:aimed-one-shot:%s:%s:%s" % (spell, "time-in-run" if inside else "time-before-start"
+                          if e["T"] < c["start"] else "time-after-end", "sent" if sent else "not-sent"))
+                if spell == "naive" and (e["T"] < c["end"] or e["T"] - a < c["end"]):
+                    rep.count("host-zone:aimed-naive-one-shot-that-a-local-reading-would-send-elsewhere")
 
 
 def same_expr_groups(c):
@@ -1358,6 +1531,8 @@ def explore(ctx, rep, cases, label, shard=25, chunk=None):
             count_payload(rep, c, o)
         count_equal(rep, c, o)
         count_callbacks(rep, c, o)
+        if c.get("host"):
+            count_host(rep, c, o)
         rep.count("kicks", len(o["kicks"]))
         rep.count("kicks:failed", sum(1 for k in o["kicks"] if k[4] is False))
         for s in c["sources"]:
@@ -1446,6 +1621,10 @@ def run(ctx):
     for k, c in enumerate(cases):          # 1 in 14 of the plain runs: the same run, its sources written in other styles
         if k % 14 == 9:
             stylize(r7, c)
+    r8 = ctx.sub_rng("host-zone")
+    for k, c in enumerate(cases):          # 1 in 14 of the plain runs: the same run on a host in another zone
+        if k % 14 == 4:
+            hostify(r8, c, *pick_host(r8), aimed=False)
     broken = explore(ctx, rep, cases, "main")
     # long runs (hours; ~26 h): few schedules whose next occurrence is an hour / some hours / a day away - see gen_long
     r3 = ctx.sub_rng("long")
@@ -1467,6 +1646,8 @@ def run(ctx):
     broken = explore(ctx, rep, [gen_eqfaults(r6) for _ in range(ctx.n(*NEQ))], "equal-times-faults") or broken
     # runs whose sources write get_schedules / pre_send / post_send in varied styles - see stylize
     broken = explore(ctx, rep, [gen_callbacks(r7, k) for k in range(ctx.n(*NCB))], "callback-styles") or broken
+    # runs on a host whose time zone is not UTC - see hostify
+    broken = explore(ctx, rep, [gen_hosts(r8, k) for k in range(ctx.n(*NHOST))], "host-zone") or broken
     corpus_known[SIG_EQ] = known_equal_times(ctx, rep)
     unexplained = [f for f in rep.failures if not sig_d7(f) and not sig_eq(f)]
     if (broken or any(not o["ok"] for o in rep.obligations)) and not unexplained:
@@ -1511,6 +1692,8 @@ def replay(ctx, path):
     c = rec["case"] if "case" in rec else rec
     o = C.run_driver(ctx, "sched_driver", [c], nproc=1)[0]
     print("case:", json.dumps(c)[:3000])
+    if c.get("host"):
+        print("host time zone of the scheduler process (TZ):", c["host"], o.get("host"))
     if "_crash" in o:
         print("implementation crashed:", o["_crash"])
         return 1
